@@ -229,5 +229,7 @@ class RSAKey(PKey):
                 raise SSHException(str(e))
         else:
             self._got_bad_key_format_id(pkformat)
-        assert isinstance(key, rsa.RSAPrivateKey)
+        if not isinstance(key, rsa.RSAPrivateKey):
+            # e.g. an EC key inside "BEGIN RSA PRIVATE KEY"
+            raise SSHException("not an RSA private key")
         self.key = key
